@@ -55,7 +55,7 @@ def cases(draw):
     flags = {
         "ignore_rank": draw(st.booleans()),
         "ignore_residuals": draw(st.booleans()),
-        "drop_atol": draw(st.sampled_from([1e-8, 1e-8, 1e-3, 2.0])),
+        "drop_atol": draw(st.sampled_from([1e-8, 1e-8, 1e-3, 2.5])),
         "residual_atol": draw(st.sampled_from([0.1, 0.1, 1e-4, 10.0])),
     }
     pres = {
